@@ -99,7 +99,11 @@ def run(run):
         for container, scripting in cfgs:
             dd = d if container is None else max(2, d - 1)
             th = theme + "F" if (theme in ("TU", "T8") and container is not None) else theme
-            res = engine.product_bfs(step, len(tw.THEMES[th]), dd, bisim_depth=max(0, dd - 2), ctx=(th, container, scripting))
+            init = [()]
+            if container is None and not scripting:
+                init += tw.seed_words(th)       # deep states reached by fixed prefixes (counted in the same BFS)
+            res = engine.product_bfs(step, len(tw.THEMES[th]), dd, bisim_depth=max(0, dd - 2), ctx=(th, container, scripting),
+                                     init_words=init)
             tot_s += res.states
             tot_t += res.transitions
             bc += res.bisim_checks
